@@ -5,7 +5,7 @@ from sim.util import derive_rng, pick, wpick
 
 LEVEL = 'exploration'
 BUDGET = {
-    'quick': dict(runs=300, wall=420, timeout=300, det=4, minimise=40),
+    'quick': dict(runs=300, wall=420, timeout=600, det=4, minimise=40),
     'thorough': dict(runs=5000, wall=3000, timeout=600, det=16, minimise=200),
 }
 RULE = ('Each run = one SM3 configuration (beta1 incl. 0 and 1, beta2 in (0,1], '
